@@ -291,8 +291,9 @@ def finish(ctx: Ctx, explanation: str, level: str = "other", exhaustive=None,
         "wall_s": round(wall, 3),
         "violations": len(violations),
     }
-    os.makedirs(os.path.join(VERIF, "evidence"), exist_ok=True)
-    evp = os.path.join(VERIF, "evidence", "%s.json" % ctx.pid)
+    evdir = os.environ.get("XFAB_EVIDENCE_DIR") or os.path.join(VERIF, "evidence")
+    os.makedirs(evdir, exist_ok=True)
+    evp = os.path.join(evdir, "%s.json" % ctx.pid)
     tmp = evp + ".tmp%d" % os.getpid()
     with open(tmp, "w") as f:
         json.dump(ev, f, indent=1, sort_keys=True)
@@ -311,8 +312,9 @@ def finish(ctx: Ctx, explanation: str, level: str = "other", exhaustive=None,
         seenk.add(f["key"])
         print("KNOWN-FINDING: property=%s %s %s" % (ctx.pid, f["key"], f["msg"]))
     if violations:
-        os.makedirs(os.path.join(VERIF, "replay"), exist_ok=True)
-        rp = os.path.join(VERIF, "replay", "%s.json" % ctx.pid)
+        rdir = os.environ.get("XFAB_EVIDENCE_DIR") or os.path.join(VERIF, "replay")
+        os.makedirs(rdir, exist_ok=True)
+        rp = os.path.join(rdir, "%s.replay.json" % ctx.pid)
         with open(rp, "w") as f:
             json.dump({"property": ctx.pid, "tier": ctx.tier, "repo": REPO,
                        "violations": _jsonable(violations)}, f, indent=1)
